@@ -121,7 +121,7 @@ CLAIMED = {
             "has length 2 x leaves and ends with all done, final state independent of k; the hold-while-awaiting variant deadlocks (negative witness); worker pool bound. Tie: "
             "generated nest/map shapes x k in 1..4 x fifo/lifo/random release policies on the controllable loop: in-flight counter <= k, termination, same result as the "
             "unlimited run; the observed start/finish trace is replayed through the Lean model.",
-            BASE_NOTE + "asyncio.Semaphore fairness assumed; known finding C15-F1: async interrupt handlers run outside the permit.", "DESIGN.md §7 C15"),
+            BASE_NOTE + "asyncio.Semaphore fairness assumed; interrupt handlers take a permit too since the repair 583d200 (former known finding C15-F1, now the fixed record C15-X1).", "DESIGN.md §7 C15"),
     "C10": ("proof", "Lean 4 proof: list laws for zip/product, alignment of collected lists, sort-of-permutation + correspondence under random completion orders",
             "Kernel-checked: zip is position-wise with equal lengths enforced, product is row-major with length = product of lengths, every output list of a mapping node has "
             "one entry per combination (None for failed/missing), first failing item's error raised in input order, order restoration from completion order, item i of map = "
